@@ -41,6 +41,7 @@ mpz_set_str (mpz_ptr x, const char *str, int base)
   mp_size_t xsize;
   int c;
   int negative;
+  int need_digit = 0;		/* set after a 0x or 0b prefix */
   const unsigned char *digit_value;
   TMP_DECL;
 
@@ -82,21 +83,29 @@ mpz_set_str (mpz_ptr x, const char *str, int base)
 	    {
 	      base = 16;
 	      c = (unsigned char) *str++;
+	      need_digit = 1;
 	    }
 	  else if (c == 'b' || c == 'B')
 	    {
 	      base = 2;
 	      c = (unsigned char) *str++;
+	      need_digit = 1;
 	    }
 	}
     }
 
   /* Skip leading zeros and white space.  */
   while (c == '0' || isspace (c))
-    c = (unsigned char) *str++;
+    {
+      if (c == '0')
+	need_digit = 0;
+      c = (unsigned char) *str++;
+    }
   /* Make sure the string does not become empty, mpn_set_str would fail.  */
   if (c == 0)
     {
+      if (need_digit)
+	return -1;		/* a prefix with no digits is not a number */
       x->_mp_size = 0;
       return 0;
     }
